@@ -186,6 +186,15 @@ func SameValue(a, b Value) bool {
 	case *MuxV:
 		y, ok := b.(*MuxV)
 		return ok && x.P == y.P && SameValue(x.A, y.A) && SameValue(x.B, y.B)
+	case *Str:
+		y, ok := b.(*Str)
+		if !ok || x.Sym != y.Sym || !x.Len.Equal(y.Len) {
+			return false
+		}
+		if (x.Const == nil) != (y.Const == nil) {
+			return false
+		}
+		return x.Const == nil || *x.Const == *y.Const
 	}
 	return reflect.DeepEqual(a, b)
 }
